@@ -50,7 +50,7 @@ def guard(res: core.CaseResult, what: str, fn: Callable, *a: Any, **k: Any) -> T
         return False, None
 
 
-PARSER_VARIANTS = ["default", "default", "minimum", "complete", "all_args", "selected", "comm", "bandwidth_first"]
+PARSER_VARIANTS = ["default", "default", "minimum", "complete", "all_args", "selected", "comm", "bandwidth_first", "skip_types"]
 
 
 def parser_config(variant: str):
@@ -72,6 +72,9 @@ def parser_config(variant: str):
         return c
     if variant == "comm":
         return ParserConfig.enable_communication_args(ParserConfig())
+    if variant == "skip_types":
+        # honoured by the ijson backends only (documented); with the JSON backend every complete event is still loaded
+        return ParserConfig(skip_event_types={"python_function", "gpu_memcpy", "cuda_sync", "kernel"})
     if variant == "bandwidth_first":
         return ParserConfig(args=list(ParserConfig.ARGS_BANDWIDTH) + list(ParserConfig.ARGS_SYNC) + ParserConfig.get_minimum_args())
     raise ValueError(variant)
